@@ -409,6 +409,18 @@ def run_check(P, tier, seed):
             for n in theorems_of(m):
                 ax[n] = None
     bad = {n: a for n, a in ax.items() if a is None or not set(a) <= ALLOWED_AXIOMS}
+    rechecked = None
+    if tier == 'thorough' and ok_props:
+        # independent re-check of the compiled theorem modules by the toolchain's leanchecker (kernel replay)
+        rechecked = {}
+        for m in P.PROPS_MODULES:
+            with Lock('leanchecker'):
+                r = sh(['lake', 'env', 'leanchecker', m], cwd=LEAN)
+            rechecked[m] = (r.returncode == 0)
+            if r.returncode != 0:
+                bad['leanchecker:' + m] = None
+                res.notes.append('leanchecker rejected ' + m + ': ' + r.stdout[-800:])
+        res.notes.append('leanchecker re-checked: ' + ', '.join(f"{m}={'ok' if v else 'FAILED'}" for m, v in rechecked.items()))
     res.obligations = {'total': len(ax), 'discharged': len(ax) - len(bad), 'theorems': sorted(ax)}
     proof_broken = None
     if hits or bad or not ok_props:
@@ -553,7 +565,8 @@ def write_evidence(P, res):
         'discharged': res.obligations.get('discharged', 0),
         'theorems': res.obligations.get('theorems', []),
         'checker_cmd': 'cd lean && lake build driver ' + ' '.join(P.PROPS_MODULES) +
-                       ' && lake env lean .audit/Audit_*.lean   # #print axioms for every theorem listed',
+                       ' && lake env lean .audit/Audit_*.lean   # #print axioms for every theorem listed' +
+                       (''.join(' && lake env leanchecker ' + m for m in P.PROPS_MODULES) if res.tier == 'thorough' else ''),
         'trusted_base': ['Lean 4.33.0 kernel', 'axioms: propext, Classical.choice, Quot.sound only',
                          'tools/lib/extract.py (tables regenerated from /repo)',
                          'correspondence harness + generators (differential execution against /repo build)'] +
